@@ -367,11 +367,8 @@ func rule144(r *core.Run, ctx *oblig.Ctx) {
 		okDel := false
 		for _, c := range r.P.CallsIn(fn, false, core.NameIs(skipDelete)) {
 			for _, g := range core.GuardsOf(c.(ssa.Instruction)) {
-				cd := core.CondOf(g.If.Cond)
-				if isLenCall(cd.X) {
-					if k, isK := core.ConstInt(cd.Y); isK && k == 0 && ((cd.Op == token.EQL && g.Branch != cd.Neg) || (cd.Op == token.NEQ && g.Branch == cd.Neg) || (cd.Op == token.LSS && false)) {
-						okDel = true
-					}
+				if _, zero, ok := lenZeroFact(g); ok && zero {
+					okDel = true
 				}
 			}
 		}
